@@ -93,6 +93,7 @@ func zzBytes(name string, max int) string {
 func zzHavoc(name string, ptr interface{}, spec string) {
 	def := 2
 	by := map[string]int{}
+	constKeys := map[string]bool{}
 	for i, p := range strings.Split(spec, ";") {
 		p = strings.TrimSpace(p)
 		if p == "" {
@@ -103,6 +104,12 @@ func zzHavoc(name string, ptr interface{}, spec string) {
 			continue
 		}
 		kv := strings.SplitN(p, "=", 2)
+		if kv[0] == "constkeys" {
+			for _, f := range strings.Split(kv[1], ",") {
+				constKeys[f] = true
+			}
+			continue
+		}
 		n, _ := strconv.Atoi(kv[1])
 		by[kv[0]] = n
 	}
@@ -163,9 +170,18 @@ func zzHavoc(name string, ptr interface{}, spec string) {
 					continue
 				}
 				k := reflect.New(t.Key()).Elem()
-				fill(en+".key", k, field)
 				e := reflect.New(t.Elem()).Elem()
 				fill(en+".val", e, field)
+				if constKeys[field] {
+					k.SetString(fmt.Sprintf("ID%d", i))
+					if e.Kind() == reflect.Ptr && e.Elem().Kind() == reflect.Struct {
+						if f := e.Elem().FieldByName("ID"); f.IsValid() && f.Kind() == reflect.String {
+							f.SetString(k.String())
+						}
+					}
+				} else {
+					fill(en+".key", k, field)
+				}
 				m.SetMapIndex(k, e)
 			}
 			v.Set(m)
